@@ -228,7 +228,7 @@ func genUDPSpecs(r *Rng, forAnnounce bool) string {
 		var payload []byte
 		switch {
 		case action == 3:
-			payload = []byte(r.pickStr("d14:failure reason4:nopee", "d14:failure reason4:nope8:retry in1:5e", "garbage", "", "d14:failure reasoni5ee"))
+			payload = []byte(r.repPickStr("d14:failure reason4:nopee", "d14:failure reason4:nope8:retry in1:5e", "garbage", "", "d14:failure reasoni5ee"))
 		case forAnnounce:
 			np := r.Pick(0, 1, 2, 5)
 			payload = make([]byte, 12+6*np)
@@ -251,10 +251,10 @@ func genUDPSpecs(r *Rng, forAnnounce bool) string {
 	return strings.Join(specs, ";")
 }
 
-func (r *Rng) pickStr(xs ...string) string { return xs[r.Intn(len(xs))] }
+func (r *Rng) repPickStr(xs ...string) string { return xs[r.Intn(len(xs))] }
 
 func genHTTPOp(r *Rng) string {
-	kind := r.pickStr("compact", "compact", "dict", "dict", "fail", "raw")
+	kind := r.repPickStr("compact", "compact", "dict", "dict", "fail", "raw")
 	status := r.Pick(200, 200, 200, 200, 404, 500)
 	var body []byte
 	extra := ""
@@ -280,7 +280,7 @@ func genHTTPOp(r *Rng) string {
 		var dps []string
 		s := "d" + repBstr("interval") + "i900e" + repBstr("peers") + "l"
 		for i := 0; i < n; i++ {
-			ip := r.pickStr("1.2.3.4", "10.0.0.1", "255.255.255.255", "tracker.example.org", "", "::1", "2001:db8::1", "1.2.3", "999.1.1.1", "localhost")
+			ip := r.repPickStr("1.2.3.4", "10.0.0.1", "255.255.255.255", "tracker.example.org", "", "::1", "2001:db8::1", "1.2.3", "999.1.1.1", "localhost")
 			port := r.Pick(0, 1, 6881, 65535)
 			s += "d" + repBstr("ip") + repBstr(ip) + repBstr("port") + fmt.Sprintf("i%de", port) + "e"
 			dps = append(dps, fmt.Sprintf("%s|%d", hexs([]byte(ip)), port))
@@ -289,7 +289,7 @@ func genHTTPOp(r *Rng) string {
 		body = []byte(s)
 		extra = "iv=900 mi=0 dp=" + joinOrDash(dps)
 	case "fail":
-		body = []byte("d" + repBstr("failure reason") + repBstr("not registered") + repBstr("retry in") + repBstr(r.pickStr("5", "never", "")) + "e")
+		body = []byte("d" + repBstr("failure reason") + repBstr("not registered") + repBstr("retry in") + repBstr(r.repPickStr("5", "never", "")) + "e")
 	case "raw":
 		body = r.Bytes(r.Range(0, 40))
 		if r.Chance(50) {
